@@ -143,7 +143,11 @@ def r3_multiplicity_and_r6_strip(ctx, rule):
         if v is not None and isinstance(v, ast.Call) and isinstance(v.func, ast.Attribute) and v.func.attr == 'rstrip' \
                 and U(v.func.value) == line_var and v.args and isinstance(const(v.args[0]), str) and set(const(v.args[0])) <= set('\r\n'):
             kind = 'eol'
-        elif txt == "' '.join(%s.lstrip().split(' ')[1:])" % yv and any('prefixcount' in c for c, p in conds if p):
+        elif txt in ("' '.join(%s.lstrip().split(' ')[1:])" % yv, "%s.lstrip().partition(' ')[2]" % yv,
+                     "%s.lstrip().split(' ', 1)[1]" % yv if False else "' '.join(%s.lstrip().split(' ')[1:])" % yv) \
+                and any('prefixcount' in c for c, p in conds if p):
+            # everything behind the first blank: join(split(' ')[1:]) and partition(' ')[2] are the same string for every input
+            # (split(' ', 1)[1] is NOT: it raises for a line without a blank)
             kind = 'prefix'
         elif txt == "bytes.fromhex(%s[5:-1]).decode(self.encoding)" % yv and \
                 any("startswith('$HEX[')" in c and "endswith(']')" in c for c, p in conds if p):
